@@ -92,7 +92,9 @@ PROPS = {
                 "Stream `failing`: include trees (2-30 files of very different or equal sizes, nested) with 0-2 faults at the first / a middle / the last position of any file (half-typed directive, include of a missing file / a directory / an ancestor, "
                 "directive rejected by the journal) under infer -t, balance, print, check [--write], transcode, register (with -d / -a / -s), portfolio weights / returns: stdout bytes and exit status of rejected inputs must not depend on the schedule either; class = (command, faults, exit, output size). "
                 "Stream `floatties`: sibling rows that tie in exact arithmetic through addends differing in number, order, sign and magnitude over many periods (instalments against lump sums, subtrees, several commodities, monthly two-decimal prices) "
-                "under balance (valued / unvalued, every interval, --diff, -m, -s) and portfolio weights (tied commodities; --universe classes collapsed by -m), 24 / 60 runs each: a float sum taken in map order shows as rows that change places.",
+                "under balance (valued / unvalued, every interval, --diff, -m, -s) and portfolio weights (tied commodities; --universe classes collapsed by -m), 24 / 60 runs each: a float sum taken in map order shows as rows that change places. "
+                "Stream `period`: journals split over 2-6 files of very different or equal sizes whose first / last dated directives are of every kind (price, open, assertion, transaction, close) and live in files other than the transactions, "
+                "under balance (valued / unvalued, intervals, --diff, --last, --from / --to), register, portfolio weights / returns, 16 / 40 runs each: the report period (a fold over the directives in file arrival order) must not depend on the schedule.",
         "assumptions": [],
     },
     "C05": {
